@@ -18,6 +18,8 @@ struct Case {
     blamed: usize, // 0 main, 1 another listed thread, 2 not a thread of the target (the checker itself)
     ctx: bool,
     regfile: usize,
+    /// a size limit is set (far above any dump size: it never takes effect)
+    limit: bool,
 }
 
 fn devs_for(regfile: usize, stack_hi: u64, text: u64) -> Vec<(usize, u64)> {
@@ -109,8 +111,31 @@ pub fn judge(bytes: &[u8], blamed_tid: i32, listed_expected: bool, ctx: Option<(
     fails
 }
 
+/// Without a crash context the record carries the blamed thread's CAPTURED context: compare it with the
+/// registers the (parked) thread really has — stack pointer and callee-saved registers, which a thread
+/// that spins in the puppet's loop or sits in a system call cannot change.
+pub fn judge_truth(bytes: &[u8], blamed_tid: i32) -> Vec<(String, String)> {
+    let mut fails = Vec::new();
+    let d = Dump::parse(bytes);
+    let Some(x) = d.exception.clone() else { return fails };
+    let Some(cb) = d.loc_bytes(bytes, &x.context) else { return fails };
+    if cb.len() != off::SIZE {
+        return fails;
+    }
+    let Some(now) = crate::checks::universal::regs_now(blamed_tid) else { return fails };
+    let pairs: [(&str, usize, u64); 7] = [("rsp", off::RSP, now.rsp), ("rbp", off::RBP, now.rbp), ("rbx", off::RBX, now.rbx), ("r12", off::R12, now.r12), ("r13", 224, now.r13), ("r14", 232, now.r14), ("r15", 240, now.r15)];
+    for (name, o, v) in pairs {
+        let got = off::u64_at(cb, o);
+        if got != v {
+            fails.push((format!("captured-context-not-the-blamed-threads/{name}"), format!("the exception context's {name} is {got:#x}; the blamed thread {blamed_tid} (parked) has {v:#x}")));
+            break;
+        }
+    }
+    fails
+}
+
 fn run_case(c: &Case) -> (Value, Vec<(String, String)>, bool) {
-    let case = json!({"n": c.n, "blamed": c.blamed, "ctx": c.ctx, "regfile": c.regfile});
+    let case = json!({"n": c.n, "blamed": c.blamed, "ctx": c.ctx, "regfile": c.regfile, "limit": c.limit});
     let mut b = build(&Shape::threads(c.n));
     let env = env_of(&mut b);
     let blamed_tid: i32 = match c.blamed {
@@ -120,7 +145,7 @@ fn run_case(c: &Case) -> (Value, Vec<(String, String)>, bool) {
     };
     let listed_expected = c.blamed == 0 || (c.blamed == 1);
     let devs = devs_for(c.regfile, env.main_stack.1, env.text.0);
-    let mut o = DumpOpts { blamed: Some(blamed_tid), ..Default::default() };
+    let mut o = DumpOpts { blamed: Some(blamed_tid), size_limit: if c.limit { Some(u64::MAX) } else { None }, ..Default::default() };
     let (signo, code, addr) = (11u32, 0x12345i32, 0x7eee_dead_b000u64);
     if c.ctx {
         o.crash = Some(CrashSpec { tid: blamed_tid, signo, code, addr, devs: devs.clone() });
@@ -138,6 +163,10 @@ fn run_case(c: &Case) -> (Value, Vec<(String, String)>, bool) {
         }
     };
     fails.extend(judge(&bytes, blamed_tid, listed_expected, if c.ctx { Some((signo, code, addr, devs.clone())) } else { None }));
+    if !c.ctx && c.blamed == 1 {
+        b.p.quiesce();
+        fails.extend(judge_truth(&bytes, blamed_tid));
+    }
     (case, fails, true)
 }
 
@@ -246,7 +275,10 @@ pub fn run(ctx: &Ctx, rep: &mut Report) {
             for c in [true, false] {
                 let regs: Vec<usize> = if c { if ctx.tier.is_thorough() { (0..8).collect() } else { vec![0, 2, 3, 5, 7] } } else { vec![0] };
                 for regfile in regs {
-                    cases.push(Case { n, blamed, ctx: c, regfile });
+                    cases.push(Case { n, blamed, ctx: c, regfile, limit: false });
+                    if regfile == 0 {
+                        cases.push(Case { n, blamed, ctx: c, regfile, limit: true });
+                    }
                 }
             }
         }
@@ -313,7 +345,7 @@ pub fn replay(case: &Value, rep: &mut Report) {
         return;
     }
     let g = |k: &str| case.get(k).and_then(|v| v.as_u64()).unwrap_or(0) as usize;
-    let c = Case { n: g("n").max(1), blamed: g("blamed"), ctx: case.get("ctx").and_then(|v| v.as_bool()).unwrap_or(false), regfile: g("regfile") };
+    let c = Case { n: g("n").max(1), blamed: g("blamed"), ctx: case.get("ctx").and_then(|v| v.as_bool()).unwrap_or(false), regfile: g("regfile"), limit: case.get("limit").and_then(|v| v.as_bool()).unwrap_or(false) };
     let (case, fails, _) = run_case(&c);
     rep.evaluations += 1;
     for (k, m) in fails {
